@@ -482,6 +482,25 @@ def _run(world: World, plan):
             scan_done.append(loop.time())
     alice.recorder.hooks.append(on_event)
 
+    # Was the server link lost, or stop() called, while login() was still handing the
+    # SessionInitializedEvent round its listeners?  (first listener = priority 0, recorder = last)
+    init_window = {'open': False, 'hit': False}
+
+    def first_listener(event):
+        if isinstance(event, SessionInitializedEvent):
+            init_window['open'] = True
+        elif isinstance(event, ConnectionStateChangedEvent) and isinstance(event.connection, ServerConnection):
+            if init_window['open'] and event.state.name in ('CLOSING', 'CLOSED'):
+                init_window['hit'] = True
+
+    def last_listener(event):
+        if isinstance(event, SessionInitializedEvent):
+            init_window['open'] = False
+    world.keep_alive.extend([first_listener, last_listener])
+    client.events.register(SessionInitializedEvent, first_listener, priority=0)
+    client.events.register(ConnectionStateChangedEvent, first_listener, priority=0)
+    client.events.register(SessionInitializedEvent, last_listener, priority=5000)
+
     def alice_sessions():
         return [x for x in server.sessions if x.ip == alice.host.ip]
 
@@ -737,6 +756,8 @@ def _run(world: World, plan):
         if ctx['stopped']:
             return
         ctx['stopped'] = True
+        if init_window['open']:
+            init_window['hit'] = True
         world.net.fired['client_stop'] += 1
 
         async def do_stop():
@@ -1009,4 +1030,8 @@ def _run(world: World, plan):
     sig = [shape, login_mode, state, (plan.get('index'), plan.get('trigger')) if state == 'burst' else None, tuple(pending),
            action.get('kind'), action.get('how'), action.get('k'), stop_after, reasons, n_init,
            ctx['stop_return'] is not None]
+    if init_window['hit']:
+        world.probe('link_lost_during_session_initialisation')
+        for v in world.violations:
+            v['facts']['during_session_init'] = True
     return common.finish(world, nontrivial, sig)
